@@ -16,6 +16,11 @@ RULE = ('consumer probes whose parameters are bound (by config text) to value tr
         'about through lists, nested strings, a/b strings, config_scope(None), get_configurable(\'a/b/cons\'); between calls: re-bound provider parameter, '
         're-bound macro, finalize, a second parse; a provider raising an ordinary exception mid-container; unscoped @name is the registered configurable '
         'object; operative_config_str() around the mutation; get_bindings(resolve_references=True) under the caller scope against the model. '
+        'Second extension: dict keys that differ in nothing but the reference scope (@s1/p, @s2/p, @p in one dict) and macros as dict keys (two macros side by side); '
+        'no provider runs during parsing, parse_config_files_and_bindings(finalize_config=True), finalize, re-binding, unresolved queries or config strings '
+        '(parameters bound to a macro as a whole whose value holds evaluated references); references to configurable generator functions whose results are '
+        'read lazily (by the consumer or after it) and stay suspended across the consumer calls until exhausted / closed / dropped: the active scope while they '
+        'are suspended, their items (scoped bindings of the generator function) and everything the main model says about the calls in between. '
         'distinct = (tree shape, reference kinds, ambient depth, override pattern, #calls, scoped provider bindings, ambient program, between-ops, caller values)')
 TIERS = {
     'quick': {'workers': 8, 'cases': 1000, 'timeout': 600},
@@ -35,6 +40,15 @@ REQUIRED_BUCKETS += ['provider:class-configurable', 'provider:class-external', '
                      'ambient-how:none-then', 'ambient-how:get_configurable', 'identity:unscoped-unevaluated-is-the-configurable',
                      'history:evaluated-reference-raised-mid-container', 'history:call-after-raising-reference']
 ORACLE_COUNTERS += ['get_bindings_resolved_compared', 'operative_snapshots_compared', 'identity_checks']
+# second extension wave (changes that were missed at first): every bucket below must be hit in every run
+REQUIRED_BUCKETS += ['ref:sibling-keys-differ-only-in-scope', 'ref:macro-as-dict-key', 'ref:two-macros-as-sibling-keys', 'ref:top-level-macro-holding-evaluated-reference',
+                     'quiet:finalize-with-evaluated-reference-behind-top-level-macro', 'quiet:parse', 'quiet:snapshot', 'parse-via:files_and_bindings-finalize',
+                     'lazy:generator-held-across-consumer-calls', 'lazy:scoped-evaluated', 'lazy:scoped-unevaluated', 'lazy:unscoped-evaluated', 'lazy:read-by-consumer',
+                     'lazy:read-by-harness', 'lazy:released-exhaust', 'lazy:released-close', 'lazy:released-drop', 'lazy:held-until-the-end', 'lazy:consumer-called-twice']
+ORACLE_COUNTERS += ['quiet_periods_checked', 'lazy_generators_read']
+KEY_MACROS = ['k0', 'kk/k1']             # macros whose values are hashable: usable as dict keys
+GEN_PROVS = ['gen0', 'gen1']              # configurable generator functions (what they deliver is read lazily)
+P_HOLD = 0.12                             # share of cases in which partly read generators stay suspended across the consumer calls
 REF_SCOPES = ['s1', 's2', 'd.e']          # 'd.e': a scope name may contain dots
 CLS_PROVS = ['Prov3', 'Prov4', 'Prov5']   # classes: @gin.configurable, external_configurable, gin.register + a registered method
 P_OPSNAP = 0.12                           # share of mutating calls around which operative_config_str() is snapshotted (costly)
@@ -102,6 +116,48 @@ def _setup_ext():
   xp['raiser'] = r
   _S['xprovs'] = xp
   _S['xby_pid'] = {p.pid: n for n, p in xp.items()}
+  _setup_lazy()
+
+
+def _leaves(v):
+  """The non-container leaves of a delivered value, in order (lists, tuples, dict values)."""
+  if type(v) in (list, tuple):
+    for x in v:
+      yield from _leaves(x)
+  elif type(v) is dict:
+    for x in v.values():
+      yield from _leaves(x)
+  else:
+    yield v
+
+
+def _setup_lazy():
+  """Two configurable generator functions (one per registration API) and a consumer that reads the generators it is given lazily:
+  a few items only, so that they stay suspended while it (and whoever comes after it) goes on using Gin."""
+  import types
+  import gin
+
+  def gen0(n=2, tag='dflt-tag'):
+    for i in range(n):
+      yield (tag, i)
+
+  def gen1(n=2, tag='dflt-tag'):
+    i = 0
+    while i < n:
+      yield (tag, i)
+      i += 1
+  _S['gens'] = {'gen0': gin.configurable('gen0', module='c4')(gen0), 'gen1': gin.external_configurable(gen1, 'gen1', module='c4')}
+
+  @gin.configurable('c4lazy', module='c4')
+  def lazy(x=None):
+    cfg = _S.get('lazy') or {}
+    taken = []
+    for g in _leaves(x):
+      taken.append([next(g) for _ in range(cfg.get('take', 0))] if isinstance(g, types.GeneratorType) else None)
+    mid = gin.current_scope()                   # what Gin considers active while the generators are suspended
+    inner = _S['provs']['prov0'].conf() if cfg.get('inner') else None
+    return x, taken, mid, inner
+  _S['lazy_fn'] = lazy
 
 
 def _pname(pid):
@@ -135,7 +191,7 @@ def gen_tree(rng, depth):
       return ['lit', rng.choice([1, 'x', None, 2.5, [1, 2], {'a': [0]}, (3, [4])])]
     if k < 0.85:
       return gen_ref(rng)
-    return ['macro', rng.choice(['m0', 'mm/m1'])]
+    return ['macro', rng.choice(['m0', 'mm/m1', 'm0', 'mm/m1'] + KEY_MACROS)]
   n = rng.choice([1, 2, 2, 3])
   if r < 0.65:
     return ['list', [gen_tree(rng, depth - 1) for _ in range(n)]]
@@ -143,23 +199,70 @@ def gen_tree(rng, depth):
     return ['tuple', [gen_tree(rng, depth - 1) for _ in range(n)]]
   items = []
   used = set()
+  last = {}
   for i in range(n):
     key = ['lit', 'k%d' % i]
     kr = rng.random()
+    # keys that are written differently are different keys: '@s1/p', '@s2/p' and '@p' in one dict are three references, each delivered (only the
+    # very same text twice is one key, as in any dict literal); sibling keys often point at the same provider and differ in nothing but the scope
     if kr < 0.25:
-      pn = 'prov%d' % rng.randrange(3)
-      if pn not in used:  # distinct keys only: equal keys collapse in any dict
-        used.add(pn)
-        key = ['ref', pn, [rng.choice(['s1', 's2'])] if rng.random() < 0.4 else [], False]
+      pn = last[False] if False in last and rng.random() < 0.5 else 'prov%d' % rng.randrange(3)
+      sc = [rng.choice(['s1', 's2'])] if rng.random() < 0.5 else []
+      if (pn, tuple(sc), False) not in used:
+        used.add((pn, tuple(sc), False))
+        last[False] = pn
+        key = ['ref', pn, sc, False]
     elif kr < 0.4:
       # an evaluated reference as a key: the provider's result must be hashable (an instance of a class provider); every evaluation is a new key
-      # (reference objects that are equal collapse when the dict is *parsed*, like any equal keys: one key per provider)
-      pn = rng.choice(CLS_PROVS)
-      if pn not in used:
-        used.add(pn)
-        key = ['ref', pn, [rng.choice(REF_SCOPES)] if rng.random() < 0.4 else [], True]
+      pn = last[True] if True in last and rng.random() < 0.5 else rng.choice(CLS_PROVS)
+      sc = [rng.choice(REF_SCOPES)] if rng.random() < 0.5 else []
+      if (pn, tuple(sc), True) not in used:
+        used.add((pn, tuple(sc), True))
+        last[True] = pn
+        key = ['ref', pn, sc, True]
+    elif kr < 0.5 or (kr < 0.75 and any(m in used for m in KEY_MACROS)):
+      mk = rng.choice(KEY_MACROS)      # a macro as a key (two different macros are two keys); their values are hashable and differ
+      if mk not in used:
+        used.add(mk)
+        key = ['macro', mk]
     items.append([key, gen_tree(rng, depth - 1)])
   return ['dict', items]
+
+
+def key_feats(t, out=None):
+  """Features of the dict keys of a tree (kept apart from tree_feats, which other checks use on their own trees)."""
+  out = set() if out is None else out
+  if t[0] in ('list', 'tuple'):
+    for x in t[1]:
+      key_feats(x, out)
+  elif t[0] == 'dict':
+    refs, macros = {}, set()
+    for a, b in t[1]:
+      if a[0] == 'ref':
+        refs.setdefault((_base(a[1]), a[3]), set()).add(tuple(a[2]))
+      elif a[0] == 'macro':
+        macros.add(a[1])
+      key_feats(b, out)
+    if any(len(v) > 1 for v in refs.values()):
+      out.add('ref:sibling-keys-differ-only-in-scope')
+    if macros:
+      out.add('ref:macro-as-dict-key')
+    if len(macros) > 1:
+      out.add('ref:two-macros-as-sibling-keys')
+  return out
+
+
+def has_evaluated(t, macros):
+  """Does the tree contain an evaluated reference at any depth, macros followed?"""
+  if t[0] == 'ref':
+    return bool(t[3])
+  if t[0] == 'macro':
+    return has_evaluated(macros[t[1]], macros)
+  if t[0] in ('list', 'tuple'):
+    return any(has_evaluated(x, macros) for x in t[1])
+  if t[0] == 'dict':
+    return any(has_evaluated(a, macros) or has_evaluated(b, macros) for a, b in t[1])
+  return False
 
 
 def tree_text(t):
@@ -235,7 +338,7 @@ def iter_cases(ctx, rng, n):
       graph[cn] = rng.choice(G_CLS)
     # bindings of the providers that are themselves scoped: which one a provider receives shows under which scope it really ran
     sgraph = {k: v for k, v in SGRAPH.items() if rng.random() < 0.13}
-    macros = {'m0': rng.choice(G_M0), 'mm/m1': rng.choice(G_M1)}
+    macros = {'m0': rng.choice(G_M0), 'mm/m1': rng.choice(G_M1), 'k0': rng.choice(G_K0), 'kk/k1': rng.choice(G_K1)}
     calls = []
     bind_scope = rng.choice(['', '', 'a'])
     for ci in range(rng.choice([1, 2, 3, 4, 5]) + (1 if raiser_case else 0)):
@@ -273,7 +376,131 @@ def iter_cases(ctx, rng, n):
                     'how': rng.choice(['list', 'list', 'list', 'nested-str', 'slash-str', 'inside-other', 'none-then', 'get_configurable']),
                     'opsnap': rng.random() < P_OPSNAP, 'gb': rng.random() < 0.2, 'raise': (raiser_case and ci == 0) or rng.random() < 0.1})
     yield {'spec': spec, 'trees': trees, 'graph': graph, 'sgraph': sgraph, 'macros': macros, 'calls': calls,
-           'bind_scope': bind_scope, 'parse_scope': rng.choice([None, None, 'b', 'a/s1', 'zz'])}
+           'bind_scope': bind_scope, 'parse_scope': rng.choice([None, None, 'b', 'a/s1', 'zz']),
+           'parse_via': rng.choice(['parse_config'] * 6 + ['files_and_bindings', 'files_and_bindings-finalize', 'files_and_bindings-finalize']),
+           'hold': gen_hold(rng, len(calls)) if rng.random() < P_HOLD else None}
+
+
+def gen_hold(rng, ncalls):
+  """A consumer that is given generators (results of references to generator functions) and reads them lazily: they stay suspended, partly
+  read, while the consumer calls of the case go on; released (exhausted / closed / dropped) before a later call or after the last."""
+  refs, items = [], []
+  for i in range(rng.choice([1, 2, 2, 3])):
+    scopes = [rng.choice(REF_SCOPES + ['a']) for _ in range(rng.choice([1, 1, 2]))] if rng.random() < 0.7 else []
+    ref = ['ref', rng.choice(GEN_PROVS), scopes, rng.random() < 0.7]
+    refs.append(ref[1:])
+    w = rng.choice(['bare', 'bare', 'list', 'tuple', 'dict'])
+    items.append({'bare': ref, 'list': ['list', [ref]], 'tuple': ['tuple', [ref]], 'dict': ['dict', [[['lit', 'k%d' % i], ref]]]}[w])
+  tags = {}
+  for name, scopes, _ in refs:
+    if scopes and rng.random() < 0.6:
+      pre = scopes[:rng.randint(1, len(scopes))]
+      if not any('.' in sc for sc in pre):     # a binding key cannot be written with a dotted scope (only a reference can)
+        tags['/'.join(pre + [name])] = 0
+  for k in ['a/gen0', 'hq/gen1', 'b/gen0', 'a/gen1']:
+    if rng.random() < 0.3:
+      tags[k] = 0
+  n = {g: rng.choice([2, 3, 4]) for g in GEN_PROVS}
+  at = rng.randrange(ncalls)
+  return {'refs': refs, 'tree': ['list', items], 'tags': {k: 'tag-' + k for k in tags}, 'n': n, 'take': rng.randint(1, min(n.values()) - 1),
+          'at': at, 'release_at': rng.choice([None] + list(range(at + 1, ncalls))), 'release_how': rng.choice(['exhaust', 'close', 'drop']),
+          'ambient': [rng.choice(['a', 'b', 's1']) for _ in range(rng.choice([0, 0, 1, 2]))], 'fn_scope': [rng.choice(['hq', 'a'])] if rng.random() < 0.6 else [],
+          'reader': rng.choice(['consumer', 'harness']), 'inner': rng.random() < 0.6, 'twice': rng.random() < 0.3}
+
+
+def _hold_lines(h):
+  lines = ['c4lazy.x = %s' % tree_text(h['tree'])]
+  lines += ['%s.n = %d' % (g, k) for g, k in sorted(h['n'].items())]
+  lines += ['%s.tag = %r' % (k, v) for k, v in sorted(h['tags'].items())]
+  return lines
+
+
+def _hold_items(h, name, scope):
+  """Model of what a generator made by gen0/gen1 under `scope` yields: the scoped binding with the longest matching prefix decides the tag."""
+  tag = 'dflt-tag'
+  for i in range(1, len(scope) + 1):
+    tag = h['tags'].get('/'.join(list(scope[:i]) + [name]), tag)
+  return [(tag, i) for i in range(h['n'][name])]
+
+
+def _hold_open(ctx, h, st, held):
+  import types
+  import gin
+  amb, fsc, take = list(h['ambient']), list(h['fn_scope']), h['take']
+  for rnd in range(2 if h['twice'] else 1):
+    if rnd:
+      ctx.bucket('lazy:consumer-called-twice')
+    ctx.bucket('lazy:read-by-' + h['reader'])
+    _S['lazy'] = {'take': take if h['reader'] == 'consumer' else 0, 'inner': h['inner']}
+    mark = probes.RECORDER.mark()
+    try:
+      with gin.config_scope(list(amb)):
+        x, taken, mid, inner = _S['lazy_fn']()
+    except Exception as e:  # pylint: disable=broad-except
+      ctx.check(False, 'unexpected-exception', 'the lazily reading consumer (bound to %s) raised %r under %r' % (tree_text(h['tree']), e, amb))
+      return
+    finally:
+      _S['lazy'] = None
+    got_calls = sorted((_pname(r.pid), r.scope) for r in probes.RECORDER.since(mark) if _pname(r.pid))
+    ctx.check(mid == amb, 'scope-changed-by-suspended-generator',
+              'a consumer called under %r read %d item(s) of each generator it was given (%s): while they are suspended the active scope is %r'
+              % (amb, take if h['reader'] == 'consumer' else 0, tree_text(h['tree']), mid))
+    ctx.check(gin.current_scope() == [], 'scope-left-behind-after-consumer-call',
+              'after the lazily reading consumer returned (generators still suspended) the active scope is %r' % (gin.current_scope(),))
+    exp_calls = []
+    want_inner = model_call('prov0', amb, st, exp_calls) if h['inner'] else None
+    ctx.check(sorted(exp_calls) == got_calls, 'provider-calls-differ',
+              'a configurable called by the consumer under %r while the generators it received are suspended: providers ran as %r, model %r' % (amb, got_calls, sorted(exp_calls)))
+    if h['inner']:
+      got_inner = shape_of(inner, ctx, [], [])
+      ctx.check(got_inner == want_inner, 'delivered-value-differs', 'prov0() called by the consumer under %r gave %r, model %r' % (amb, got_inner, want_inner))
+    leaves = list(_leaves(x))
+    if not ctx.check(len(leaves) == len(h['refs']), 'delivered-value-differs', '%s delivered %r' % (tree_text(h['tree']), x)):
+      return
+    for (name, scopes, ev), leaf, first in zip(h['refs'], leaves, taken):
+      ctx.bucket('lazy:%s-%s' % ('scoped' if scopes else 'unscoped', 'evaluated' if ev else 'unevaluated'))
+      items = _hold_items(h, name, list(scopes) or (amb if ev else fsc))
+      ref_text = tree_text(['ref', name, scopes, ev])
+      g, first = leaf, list(first or [])
+      try:
+        if not ev:
+          if not ctx.check(callable(leaf) and not isinstance(leaf, types.GeneratorType), 'delivered-value-differs', '%s delivered %r' % (ref_text, leaf)):
+            continue
+          with gin.config_scope(list(fsc)):
+            g = leaf()
+        if not ctx.check(isinstance(g, types.GeneratorType), 'delivered-value-differs', '%s delivered %r, not the generator the function returns' % (ref_text, g)):
+          continue
+        ctx.check(all(g is not o['g'] for o in held), 'evaluated-reference-result-not-fresh', '%s delivered a generator already delivered before' % ref_text)
+        while len(first) < take:
+          first.append(next(g))
+      except Exception as e:  # pylint: disable=broad-except
+        ctx.check(False, 'unexpected-exception', 'reading the generator delivered for %s raised %r' % (ref_text, e))
+        continue
+      ctx.count('lazy_generators_read')
+      ctx.check(first == items[:take], 'lazy-generator-items-differ', '%s (consumer under %r, called under %r): first items %r, model %r' % (ref_text, amb, fsc, first, items[:take]))
+      ctx.check(gin.current_scope() == [], 'scope-left-behind-by-suspended-generator',
+                'the generator delivered for %s is suspended after %d item(s): the active scope is %r, expected none' % (ref_text, take, gin.current_scope()))
+      held.append({'g': g, 'rest': items[take:], 'ref': ref_text})
+
+
+def _hold_release(ctx, held, how):
+  import gin
+  if not held:
+    return
+  ctx.bucket('lazy:released-' + how)
+  for o in held:
+    try:
+      if how == 'exhaust':
+        rest = list(o['g'])
+        ctx.check(rest == o['rest'], 'lazy-generator-items-differ', '%s: the remaining items are %r, model %r' % (o['ref'], rest, o['rest']))
+      elif how == 'close':
+        o['g'].close()
+    except Exception as e:  # pylint: disable=broad-except
+      ctx.check(False, 'unexpected-exception', '%s: %s of the delivered generator raised %r' % (o['ref'], how, e))
+  o = None
+  del held[:]                                   # 'drop': the last references go away
+  ctx.check(gin.current_scope() == [], 'scope-left-behind-by-suspended-generator',
+            'after the delivered generators were released (%s) the active scope is %r' % (how, gin.current_scope()))
 
 
 # provider graphs stay acyclic: prov0 < prov1, Prov3..5 < prov2
@@ -283,7 +510,10 @@ G_PROV2 = [None, None, ['ref', 'prov1', [], True], ['ref', 'prov1', ['g2'], True
            ['ref', 'Prov3', ['g2'], True], ['tuple', [['ref', 'Prov5', [], True], ['ref', 'c4.Prov4', ['s1'], False]]]]
 G_CLS = [None, None, None, None, None, ['ref', 'prov0', [], True], ['ref', 'prov0', ['g1'], True], ['lit', ['cls-t', [0]]]]
 G_M0 = [['ref', 'prov0', [], True], ['ref', 'prov1', ['ms'], True], ['lit', [1, [2]]]]
-G_M1 = [['ref', 'prov2', [], True], ['list', [['ref', 'prov0', [], True]]]]
+G_M1 = [['ref', 'prov2', [], True], ['list', [['ref', 'prov0', [], True]]], ['dict', [[['lit', 'k'], ['list', [['ref', 'prov0', [], True], ['tuple', [['ref', 'prov1', ['s1'], True]]]]]]]]]
+# macros used as dict keys: hashable values (a string, a tuple, an instance of a class provider), never equal to each other
+G_K0 = [['lit', 'k0-val'], ['lit', 'k0-val'], ['ref', 'Prov3', [], True]]
+G_K1 = [['lit', ('k1-val', 1)], ['lit', ('k1-val', 1)], ['ref', 'Prov4', ['s2'], True]]
 SGRAPH = {'g1/prov0': ['lit', ['g1-t']], 's1/prov0': ['lit', 's1-t'], 's1/s2/prov0': ['lit', ('s1s2-t', [1])], 'a/prov0': ['lit', 'a-t'],
           'g2/prov1': ['ref', 'prov0', [], True], 's1/Prov3': ['ref', 'prov0', [], True], 's2/Prov4': ['lit', ['s2-t']], 's1/Prov5': ['lit', 's1-5'],
           'q/prov0': ['lit', 'q-t'], 'm0/prov0': ['lit', ['m0-t']]}
@@ -526,6 +756,8 @@ def _config_text(st, p, pre, trees):
     lines.append('%s = %s' % (m, tree_text(t)))
   for prm, t in trees.items():
     lines.append('%s%s.%s = %s' % (pre, p.name, prm, tree_text(t)))
+  if st.get('hold'):
+    lines += _hold_lines(st['hold'])
   lines.append('c1pre/c1cons.x = @leaked2/c1interrupt()')
   return '\n'.join(lines) + '\n'
 
@@ -586,6 +818,18 @@ def _call_consumer(p, P, K, ambient, how):
     return probes.call_probe(p, P, K)
 
 
+def _all_nodes(trees):
+  stack = list(trees.values())
+  while stack:
+    t = stack.pop()
+    yield t
+    if t[0] in ('list', 'tuple'):
+      stack.extend(t[1])
+    elif t[0] == 'dict':
+      for a, b in t[1]:
+        stack.extend((a, b))
+
+
 def _is_ev(t):
   f = tree_feats(t)
   return 'ref:evaluated' in f or 'ref:scoped-evaluated' in f or 'ref:macro' in f
@@ -596,32 +840,76 @@ def run_case(ctx, case):
   if case.get('kind') == 'special':
     return run_special(ctx, case)
   gin.clear_config()
+  held = []
   try:
-    _run_case(ctx, case)
+    _run_case(ctx, case, held)
   finally:
     _S['raise_now'] = False
+    for o in held:                    # generators still suspended (the case ended early): do not carry them into the next case
+      try:
+        o['g'].close()
+      except Exception:  # pylint: disable=broad-except
+        pass
+    del held[:]
     if gin.config_is_locked():        # a 'finalize' between calls: leave the configuration unlocked for whoever runs next
       gin.clear_config()
 
 
-def _run_case(ctx, case):
+def _quiet(ctx, mark, what):
+  """An evaluated reference is called when (each time) its consuming configurable is called - and by a query that asks for resolved values. Parsing,
+  binding, finalizing, locking, unresolved queries and config strings are none of these: no provider may have run since `mark`."""
+  ran = [(_pname(r.pid), r.scope) for r in probes.RECORDER.since(mark) if _pname(r.pid)]
+  ctx.count('quiet_periods_checked')
+  ctx.check(not ran, 'provider-ran-outside-a-consumer-call', '%s ran referenced configurables although no consumer was called: %r' % (what, ran))
+
+
+def _parse(case, text):
+  import gin
+  via = case.get('parse_via') or 'parse_config'
+  if via == 'parse_config':
+    gin.parse_config(text)
+  else:
+    # the usual entry point of a program: by default it also finalizes (runs the finalize hooks and locks the configuration)
+    gin.parse_config_files_and_bindings(None, text, finalize_config=via.endswith('-finalize'))
+
+
+def _run_case(ctx, case, held):
   import gin
   spec = case['spec']
   p = probes.build(spec)
   # the model's view of the provider graph / macros; re-bindings between calls update it
-  st = {'graph': dict(case['graph']), 'sgraph': dict(case.get('sgraph') or {}), 'macros': dict(case['macros'])}
+  st = {'graph': dict(case['graph']), 'sgraph': dict(case.get('sgraph') or {}), 'macros': dict(case['macros']), 'hold': case.get('hold')}
+  hold = st['hold']
+  used_macros = {x[1] for x in _all_nodes(case['trees']) if x[0] == 'macro'}
+  for m in KEY_MACROS:
+    if m not in used_macros:
+      del st['macros'][m]           # (the model never looks an unused macro up; the config text stays short)
   pre = case['bind_scope'] + '/' if case['bind_scope'] else ''
   text = _config_text(st, p, pre, case['trees'])
+  qmark = probes.RECORDER.mark()
   if case.get('parse_scope'):
     # the scope that happens to be open while the config is *parsed* is irrelevant: unscoped references run under the scope of the consuming call
     ctx.bucket('parsed-inside-a-scope')
     with gin.config_scope(case['parse_scope']):
-      gin.parse_config(text)
+      _parse(case, text)
   else:
-    gin.parse_config(text)
+    _parse(case, text)
+  ctx.bucket('quiet:parse')
+  if (case.get('parse_via') or '').endswith('-finalize'):
+    ctx.bucket('parse-via:files_and_bindings-finalize')
   feats = set()
   for t in case['trees'].values():
     feats |= tree_feats(t)
+    feats |= key_feats(t)
+  for m in used_macros:
+    feats |= key_feats(case['macros'][m])
+  # a parameter bound to a macro as a whole, the macro's value holding evaluated references (any depth)
+  top_macro = any(t[0] == 'macro' and has_evaluated(t, case['macros']) for t in case['trees'].values())
+  if top_macro:
+    feats.add('ref:top-level-macro-holding-evaluated-reference')
+    if (case.get('parse_via') or '').endswith('-finalize'):
+      ctx.bucket('quiet:finalize-with-evaluated-reference-behind-top-level-macro')
+  _quiet(ctx, qmark, 'parsing the configuration (%s)' % (case.get('parse_via') or 'parse_config'))
   for f in feats:
     ctx.bucket(f)
   if any(g is not None for g in case['graph'].values()):
@@ -652,6 +940,8 @@ def _run_case(ctx, case):
   for ci, call in enumerate(case['calls']):
     ambient = call['ambient']
     if call.get('before') and ci > 0:
+      qmark = probes.RECORDER.mark()
+      finalizes = call['before'][0] == 'finalize' and not gin.config_is_locked()
       try:
         _apply_between(ctx, call['before'], st, lambda: _config_text(st, p, pre, case['trees']))
       except BaseException as e:  # pylint: disable=broad-except
@@ -660,14 +950,26 @@ def _run_case(ctx, case):
         # e.g. a provider run (and interrupted) by finalize(): surface it instead of losing the worker
         raise RuntimeError('%s between two consumer calls raised %r' % (call['before'][0], e)) from e
       base_snap = None                # the configuration was changed on purpose: a new baseline
+      if finalizes and any(t[0] == 'macro' and has_evaluated(t, st['macros']) for t in case['trees'].values()):
+        ctx.bucket('quiet:finalize-with-evaluated-reference-behind-top-level-macro')
+      _quiet(ctx, qmark, '%s between two consumer calls' % (call['before'][0],))
+    if hold and hold['release_at'] == ci:
+      _hold_release(ctx, held, hold['release_how'])
+    if hold and hold['at'] == ci:
+      _hold_open(ctx, hold, st, held)
+    if held:
+      ctx.bucket('lazy:generator-held-across-consumer-calls')
     if call.get('interrupted_scoped_call_before'):
       # a scoped reference / scoped configurable left by a BaseException must not leave its scope behind
       from vf.checks import c01
       ctx.bucket('history:scoped-reference-left-by-BaseException')
       c01.prelude(gin, bind=False)
     ctx.bucket('ambient:depth0' if not ambient else ('ambient:depth2+' if len(ambient) >= 2 else 'ambient:depth1'))
+    qmark = probes.RECORDER.mark()
     snap_before = take_snap(full=dirty or base_snap is None)
     dirty = False
+    ctx.bucket('quiet:snapshot')
+    _quiet(ctx, qmark, 'config_str / query_parameter / get_bindings(resolve_references=False)')
     if base_snap is None:
       base_snap = snap_before
     else:
@@ -813,6 +1115,7 @@ def _run_case(ctx, case):
         ctx.check(prm in supplied and received[prm] is supplied[prm] and received[prm] == _caller_value(call.get('oval', {}).get(prm, 'list'), prm),
                   'caller-value-replaced', 'caller value %r for %s replaced by %r' % (supplied.get(prm), prm, received[prm]))
     if call['mutate']:
+      qmark = probes.RECORDER.mark()
       op0 = gin.operative_config_str() if call.get('opsnap') else None
       n = sum(mutate(received[prm]) for prm in present)
       if n:
@@ -825,6 +1128,7 @@ def _run_case(ctx, case):
           op1 = gin.operative_config_str()
           ctx.check(op0 == op1, 'operative-config-changed-by-consumer-mutation',
                     'operative_config_str() before / after the consumer mutated what it received:\n%s\n---\n%s' % (op0, op1))
+          _quiet(ctx, qmark, 'operative_config_str()')
     if call.get('gb'):
       # a query that resolves references: under the caller's scope it sees what the consumer would be given there
       gb_calls, gb_shapes = [], {}
@@ -850,7 +1154,13 @@ def _run_case(ctx, case):
           want = model_shape_called(gb_shapes[prm], call['fn_scope'], st, fm)
           got = shape_of(gb[prm], ctx, call['fn_scope'], fg)
           ctx.check(got == want, 'get-bindings-resolved-differs', 'get_bindings(%r) under %r: %s is %r, model %r' % (p.selector, ambient, prm, got, want))
+  if hold:
+    if held and hold['release_at'] is None:
+      ctx.bucket('lazy:held-until-the-end')
+    _hold_release(ctx, held, hold['release_how'])
+  qmark = probes.RECORDER.mark()
   snap_after = take_snap()
+  _quiet(ctx, qmark, 'config_str / query_parameter / get_bindings(resolve_references=False)')
   ctx.count('mutation_snapshots_compared')
   ctx.check(same_snap(snap_after, base_snap), 'config-changed-by-consumer-mutation',
             'after the last call config_str/query/get_bindings/store differ from before the first: %r' % (snap.diff(base_snap[3], snap_after[3]),))
@@ -878,7 +1188,9 @@ LEVEL_TEXT = ('Runtime monitor with a reference model of reference evaluation: f
               'scope) runs, the delivered structure (delivered configurables are called to see what and where they run), freshness of evaluated '
               'results and non-replacement of caller values are compared with a model walk of the bound value trees; config_str, query_parameter, '
               'get_bindings and the store are snapshotted around consumer mutations; operative_config_str() is compared immediately before / after the mutation; '
-              'get_bindings(resolve_references=True) is compared with the same model; unscoped unevaluated references are compared by identity with the registered configurable.')
+              'get_bindings(resolve_references=True) is compared with the same model; unscoped unevaluated references are compared by identity with the registered configurable; '
+              'provider runs outside consumer calls (parse, finalize, re-binding, unresolved queries, config strings) are violations; generators delivered by references stay '
+              'suspended across calls while the active scope and all later deliveries are compared with the model.')
 LEVEL_NOTE = 'Trusted: the model walk (~40 lines). get_bindings(resolve_references=False)/query_parameter returning stored objects is by design (DESIGN X).'
 TECHNIQUE = 'runtime reference-model monitor with call-counting provider probes over generated reference trees, scopes and mutation histories'
 DESIGN_REF = 'DESIGN.md section 4, C04'
